@@ -67,17 +67,17 @@ def lookupInv (t : List (Bytes × Bytes)) (y : Bytes) : Bytes :=
   | some p => p.1
   | none => []
 
-def cbcRun (t : List (Bytes × Bytes)) : CbcState Bytes → List String → Option (List String)
+def cbcRunLine (t : List (Bytes × Bytes)) : CbcState Bytes → List String → Option (List String)
   | _, [] => some []
   | s, "e" :: h :: rest => do
     let d ← parseHex h
-    let (o, s') := cbcEncryptCall xorBytes (lookup t) s (Spec.chunks 16 d)
-    let r ← cbcRun t s' rest
+    let (o, s') := cbcEncryptCall (osslCbc xorBytes (lookup t) (lookupInv t)) s (Spec.chunks 16 d)
+    let r ← cbcRunLine t s' rest
     pure (toHex o.flatten :: r)
   | s, "d" :: h :: rest => do
     let d ← parseHex h
-    let (o, s') := cbcDecryptCall xorBytes (lookupInv t) s (Spec.chunks 16 d)
-    let r ← cbcRun t s' rest
+    let (o, s') := cbcDecryptCall (osslCbc xorBytes (lookup t) (lookupInv t)) s (Spec.chunks 16 d)
+    let r ← cbcRunLine t s' rest
     pure (toHex o.flatten :: r)
   | _, _ => none
 
@@ -93,7 +93,7 @@ def step (_ : Unit) (line : String) : Unit × String :=
       | some key => runSession (hmacObj (sha1Obj zeros64) key) ws
       | none => "bad-op"
     | "cbc" :: _bits :: _key :: iv :: tbl :: ws => match parseHex iv, parseTable tbl with
-      | some iv, some t => (match cbcRun t (cbcSetIv iv) ws with
+      | some iv, some t => (match cbcRunLine t (cbcSetIv ⟨List.replicate 16 0, List.replicate 16 0⟩ iv) ws with
         | some outs => " ".intercalate outs
         | none => "bad-op")
       | _, _ => "bad-op"
